@@ -112,7 +112,10 @@ def GcSt.endWriting (s : GcSt) : Bucket :=
 /-- `beginGCWriting(dst, src)` -/
 def gcBegin (b : Bucket) (dst src : Nat) (stats : GcStats) : GcSt :=
   if dst = src then { b := b, dst := dst, wh := 0, rewriting := true, out := [], stats := stats }
-  else { b := b, dst := dst, wh := (b.chunks dst).size, rewriting := false, out := [], stats := stats }
+  else
+    -- GetStreamWriter creates the destination file if it does not exist; it stays even if nothing is appended
+    let b := b.setChunk dst { b.chunks dst with created := true }
+    { b := b, dst := dst, wh := (b.chunks dst).size, rewriting := false, out := [], stats := stats }
 
 /-- one record of the source file -/
 def gcRecord (hash : Key → Nat) (cfg : Cfg) (begin : Nat) (src : Nat) (s : GcSt) (off : Nat) (r : Rec) : GcSt :=
